@@ -177,52 +177,63 @@ func VerifMemoStep(set string, memoState int) {
 	if xerr != nil {
 		verif.Reach("memo:step-failed")
 	}
-	// (3) INV afterwards: every remembered value is the fresh one
-	rwm := w.ref.WorkingMemory
-	rwm.ResetAll()
+	// (3) INV: every remembered value is the fresh one
+	inv := func(rule string) {
+		rwm := w.ref.WorkingMemory
+		rwm.ResetAll()
+		for _, n := range w.names {
+			if rr := w.ref.RuleEntries[n]; rr != nil && rr.WhenScope != nil {
+				deepReset(rr.WhenScope.Expression, 0)
+			}
+		}
+		refE, refA := rwm.VerifExpressions(), rwm.VerifAtoms()
+		for _, k := range ek {
+			n := wm.VerifExpressions()[k]
+			if !pure.exprs[n] || !n.Evaluated {
+				continue
+			}
+			rn := refE[k]
+			if rn == nil {
+				continue
+			}
+			deepReset(rn, 0)
+			fv, ferr := rn.Evaluate(w.dc, rwm)
+			if ferr != nil {
+				verif.Assert(w.L("C01:memo-invariant:no-value-remembered-for-an-expression-that-now-fails:"+rule), false)
+				continue
+			}
+			verif.Reach("memo:remembered-expression-checked")
+			verif.Assert(w.L("C01:memo-invariant:remembered-expression-value-is-the-fresh-one:after-"+rule), sameValue(n.Value, fv))
+			verif.Assert(w.L("C02:memo-invariant:remembered-expression-value-is-the-fresh-one:after-"+rule), sameValue(n.Value, fv))
+		}
+		for _, k := range ak {
+			n := wm.VerifAtoms()[k]
+			if !pure.atoms[n] || !n.Evaluated {
+				continue
+			}
+			rn := refA[k]
+			if rn == nil {
+				continue
+			}
+			deepResetAtom(rn, 0)
+			fv, ferr := rn.Evaluate(w.dc, rwm)
+			if ferr != nil {
+				verif.Assert(w.L("C01:memo-invariant:no-value-remembered-for-an-atom-that-now-fails:"+rule), false)
+				continue
+			}
+			verif.Assert(w.L("C01:memo-invariant:remembered-atom-value-is-the-fresh-one:after-"+rule), sameValue(n.Value, fv))
+			verif.Assert(w.L("C02:memo-invariant:remembered-atom-value-is-the-fresh-one:after-"+rule), sameValue(n.Value, fv))
+		}
+	}
+	inv(rule)
+	// (4) the other kind of step: the evaluation phase of the next cycle (every rule's condition is evaluated on the memo as
+	// the action list left it). INV must hold again afterwards - in particular an evaluation that FAILS leaves nothing
+	// remembered, and whatever a successful evaluation remembers is the value it computed on the current facts.
 	for _, n := range w.names {
-		if rr := w.ref.RuleEntries[n]; rr != nil && rr.WhenScope != nil {
-			deepReset(rr.WhenScope.Expression, 0)
-		}
+		_, _ = w.kb.RuleEntries[n].Evaluate(context.Background(), w.dc, wm)
 	}
-	refE, refA := rwm.VerifExpressions(), rwm.VerifAtoms()
-	for _, k := range ek {
-		n := wm.VerifExpressions()[k]
-		if !pure.exprs[n] || !n.Evaluated {
-			continue
-		}
-		rn := refE[k]
-		if rn == nil {
-			continue
-		}
-		deepReset(rn, 0)
-		fv, ferr := rn.Evaluate(w.dc, rwm)
-		if ferr != nil {
-			verif.Assert(w.L("C01:memo-invariant:no-value-remembered-for-an-expression-that-now-fails:"+rule), false)
-			continue
-		}
-		verif.Reach("memo:remembered-expression-checked")
-		verif.Assert(w.L("C01:memo-invariant:remembered-expression-value-is-the-fresh-one:after-"+rule), sameValue(n.Value, fv))
-		verif.Assert(w.L("C02:memo-invariant:remembered-expression-value-is-the-fresh-one:after-"+rule), sameValue(n.Value, fv))
-	}
-	for _, k := range ak {
-		n := wm.VerifAtoms()[k]
-		if !pure.atoms[n] || !n.Evaluated {
-			continue
-		}
-		rn := refA[k]
-		if rn == nil {
-			continue
-		}
-		deepResetAtom(rn, 0)
-		fv, ferr := rn.Evaluate(w.dc, rwm)
-		if ferr != nil {
-			verif.Assert(w.L("C01:memo-invariant:no-value-remembered-for-an-atom-that-now-fails:"+rule), false)
-			continue
-		}
-		verif.Assert(w.L("C01:memo-invariant:remembered-atom-value-is-the-fresh-one:after-"+rule), sameValue(n.Value, fv))
-		verif.Assert(w.L("C02:memo-invariant:remembered-atom-value-is-the-fresh-one:after-"+rule), sameValue(n.Value, fv))
-	}
+	verif.Reach("memo:sweep-after-the-step")
+	inv(rule + "+evaluation-sweep")
 }
 
 func VerifMemoStepLoaded(set string, memoState int) {
